@@ -117,12 +117,19 @@ class Rule_CV07(BaseRule):
                 fixes.extend([LintFix.delete(segment) for segment in lift_nodes])
                 filtered_children = filtered_children[len(leading) : -len(trailing)]
 
-            fixes.append(
-                LintFix.replace(
-                    bracketed_segment,
-                    filtered_children,
+            if filtered_children:
+                fixes.append(
+                    LintFix.replace(
+                        bracketed_segment,
+                        filtered_children,
+                    )
                 )
-            )
+            else:
+                # Nothing but the brackets is left (e.g. `()` or `( )`). A
+                # "replace" fix needs at least one segment to insert and
+                # removing the whole statement isn't what this rule is for,
+                # so report the violation without offering a fix.
+                fixes = []
 
             results.append(LintResult(anchor=bracketed_segment, fixes=fixes))
         return results
